@@ -392,6 +392,7 @@ def run(ctx):
                 bad.append((j, v, msg))
         # ---- classify: minimise the option set, then name the mechanism (token fusion / brace edit / ...)
         nviol = 0
+        cap = 400 if thorough else 40
         seen_cfg = set()
         todo = []
         for j, v, msg in bad:
@@ -400,7 +401,7 @@ def run(ctx):
                 continue              # the same configuration failing on another program: one replay is enough
             seen_cfg.add(sig)
             todo.append((j, v, msg))
-        for j, v, msg in todo[:25]:
+        for j, v, msg in todo[:cap]:
             opts = dict(j.meta["opts"])
 
             def fails(o):
@@ -449,7 +450,7 @@ def run(ctx):
                              key=key):
                 nviol += 1
         ctx.oblige("search: uncrustify exits 0 and the output compiles to the same object code as the input (%d runs, %d programs)"
-                   % (len(jobs), len(progs)), nviol == 0 and len(todo) <= 25, "oracle", "%d failing runs, %d not covered by known findings" % (len(bad), nviol))
+                   % (len(jobs), len(progs)), nviol == 0 and len(todo) <= cap, "oracle", "%d failing runs, %d not covered by known findings" % (len(bad), nviol))
         ctx.cov["verdicts"] = dict(collections.Counter(v for v, _ in verdicts))
         ctx.cov["options_tried_singly"] = len({j.meta["opts"] and list(j.meta["opts"])[0] for j in jobs if j.meta["kind"] == "single"})
         if jobs:
